@@ -118,8 +118,10 @@ def scan(repo: Repo) -> RuleRun:
     got = {v.get("index") for v in res} if isinstance(res, (set, list)) else res
     r.check(got == {2, 3}, fop, "find_on_plane returns all on-plane vertices", f"find_on_plane returns {got}; vertices 2 and 3 lie on the plane", fop.node, key="find_on_plane")
     ptp = repo.func("util.functions.point_to_plane_distance")
+    from .c20 import SignEnv
+
     rets = [n for n in walk_shallow(ptp.node) if isinstance(n, ast.Return)]
-    nonneg = all(isinstance(x.value, ast.Call) and (attr_chain(x.value.func) or "").split(".")[-1] in ("abs", "norm", "fabs") for x in rets) and bool(rets)
+    nonneg = bool(rets) and all(x.value is not None and SignEnv(repo, ptp).nonneg(x.value) for x in rets)
     r.check(nonneg, ptp, "distance is an absolute value", "point_to_plane_distance can return a signed value: points on the negative side of the plane would always count as 'on the plane'", ptp.node, key="point_to_plane_distance")
 
     # RoundSolidFinder
